@@ -165,42 +165,26 @@ func (m ClientState) RestrictChain(cdc codec.BinaryCodec, store sdk.KVStore, new
 	si, ti := m.Header.Height, new.Height
 	var err error
 	current := m.Header
-	//si > ti
-	if si.RevisionHeight > ti.RevisionHeight {
-		ConsensusTmp := store.Get(host.ConsensusStateKey(ti))
-		if ConsensusTmp == nil {
-			return sdkerrors.Wrapf(
-				clienttypes.ErrInvalidConsensus, "can not find consensus state for height %s in RestrictChain", ti)
-		}
-		var tiConsensus exported.ConsensusState
-		if err = cdc.UnmarshalInterface(ConsensusTmp, &tiConsensus); err != nil {
-			return sdkerrors.Wrapf(ErrUnmarshalInterface, "can not unmarshal ConsensusState interface in RestrictChain ")
-
-		}
-		tmpConsensus, ok := tiConsensus.(*ConsensusState)
-		if !ok {
-			return sdkerrors.Wrapf(
-				clienttypes.ErrInvalidConsensus, "can not find consensus state for height %s in RestrictChain", ti)
-		}
-		root := tmpConsensus.Root
-		headerIndexKey := GetHeaderIndexKeyByEthConsensusRoot(store, common.BytesToHash(root), ti.GetRevisionHeight())
-		currentBytes := store.Get(headerIndexKey)
-		if currentBytes == nil {
+	//si > ti: walk the old main chain down to the height of the new header.  (The root -> header index
+	// ethRootMain/{root}{height} must not be used for this: it has one slot per (state root, height), which update()
+	// has just pointed at the NEW header if that carries the state root of the main-chain header of its height.)
+	for si.RevisionHeight > ti.RevisionHeight {
+		currentTmp := GetParentHeaderFromIndex(store, current)
+		if currentTmp == nil {
 			return sdkerrors.Wrapf(
 				clienttypes.ErrInvalidConsensus, "can not find Header for height %s in RestrictChain", ti)
 		}
 		var currentHeaderInterface exported.Header
-		if err = cdc.UnmarshalInterface(currentBytes, &currentHeaderInterface); err != nil {
+		if err = cdc.UnmarshalInterface(currentTmp, &currentHeaderInterface); err != nil {
 			return sdkerrors.Wrapf(ErrUnmarshalInterface, "can not unmarshal ConsensusState interface in RestrictChain ")
-
 		}
-		currentTmp, ok := currentHeaderInterface.(*Header)
+		currentTmpHeader, ok := currentHeaderInterface.(*Header)
 		if !ok {
 			return sdkerrors.Wrapf(
 				clienttypes.ErrInvalidConsensus, "can not find consensus state for height %s in RestrictChain", ti)
 		}
-		current = *currentTmp
-		si = ti
+		current = *currentTmpHeader
+		si.RevisionHeight--
 	}
 	newHashes := make([]common.Hash, 0)
 
@@ -287,8 +271,10 @@ func (m ClientState) RestrictChain(cdc codec.BinaryCodec, store sdk.KVStore, new
 		if err != nil {
 			return sdkerrors.Wrap(ErrInvalidGenesisBlock, "marshal consensus to byte failed")
 		}
-		// set main_chain
+		// set main_chain: the consensus state and the root -> header index of this height (a header of the
+		// abandoned branch with the same state root may have taken the slot)
 		store.Set(host.ConsensusStateKey(ti), consensusStateBytes)
+		SetEthConsensusRoot(store, ti.GetRevisionHeight(), tmpHeader.ToEthHeader().Root, newHashes[i])
 		ti.RevisionHeight++
 	}
 	return err
